@@ -184,14 +184,16 @@ theorem c14_probe_keeps_cursors (s : State) (n : Name) (hv : Bool) :
   ⟨step_lb_of_status_op s _ trivial, step_lb_of_status_op s _ trivial, step_lb_of_status_op s _ trivial,
    step_lb_of_status_op s _ trivial, fun h us => probe_same_health_keeps_keys s n hv h us⟩
 
-/-! ## the traffic a policy FORWARDS when requests are authenticated with tokens — finding C14-auth-pick-shares-cursors
+/-! ## the traffic a policy FORWARDS when requests are authenticated with tokens — finding C14-auth-pick-shares-cursors (fixed by ccef1b6)
 
 The counting theorems above are about the picks that share a cursor.  A policy's traffic is only the *dispatched* picks; a
 token-authenticated request also makes the authenticator call `Manager.ClientFor` → `ClusterInfo.PickOne()` before it is
 dispatched (`Req`, `runReqs`).  Full statement: the endpoints `N` consecutive requests of a policy are forwarded to are
-floor/ceil, whatever `PickOne` calls come with them.  It holds iff `PickOne` keeps its own cursors (regenerated fact
-`Gen.C14.pickOneOwnCursors`); while `PickOne` draws from the policies' cursors it is **false**: witness below, on the real
-code 477/523 instead of 500/500 (findings/C14-auth-pick-shares-cursors). -/
+floor/ceil, whatever `PickOne` calls come with them.  It holds iff `PickOne` keeps its own cursors; while `PickOne` drew from the
+policies' cursors it was **false**: witness below, on the real code 477/523 instead of 500/500
+(findings/C14-auth-pick-shares-cursors).  The tree now gives `PickOne` its own cursor scope; that this is so is read from the
+source on every run (`Gen.C14.pickOneOwnCursors = true`) and `c14_forwarded_strict` is the full statement about the current tree,
+unconditionally: it stops checking if `PickOne` goes back to the shared cursors. -/
 
 /-- the full statement for a `PickOne` of the given kind -/
 def ForwardedStrict (own : Bool) : Prop :=
@@ -244,6 +246,9 @@ theorem c14_code_forwarded_strict_iff : CodeForwardedStrict ↔ Gen.C14.pickOneO
   cases Gen.C14.pickOneOwnCursors with
   | true => exact ⟨fun _ => rfl, fun _ => c14_forwarded_strict_own_cursors⟩
   | false => exact ⟨fun h => absurd h c14_forwarded_shared_cursors_refuted, fun h => by cases h⟩
+
+/-- **the full statement holds of the current tree** (the regenerated fact says: `PickOne` keeps its own cursors) -/
+theorem c14_forwarded_strict : CodeForwardedStrict := c14_code_forwarded_strict_iff.2 (by decide)
 
 /-- **concurrent pickers**: for every schedule (interleaving of the threads' atomic actions) that lets all `n` pickers
     finish, the order `log` of their atomic adds is a permutation of the pickers, each picker's result is exactly what the
